@@ -50,9 +50,13 @@ def make_eval_objects(name, variant, seed):
         return loss, params, batch, True
     if name in ("sysode", "syspde", "syspdestatio"):
         lk = {"sysode": "ode", "syspde": "nonstatio", "syspdestatio": "statio"}[name]
-        st = dict(family="C13", lkind=lk, neq=2, nunk=2, naming="same", wform="scalar", icpat="all" if lk != "statio" else "none",
+        # per-equation / per-unknown weight dictionaries (plain and obs variants), written by the user in ANOTHER key order than the
+        # dictionaries of equations and networks: a pytree round trip (loss passed as an argument) re-sorts dictionary keys
+        st = dict(family="C13", lkind=lk, neq=2, nunk=2, naming="same", wform="dict" if variant in ("plain", "obs") else "scalar",
+                  icpat="all" if lk != "statio" else "none",
                   obspat="all" if variant == "obs" else "none", bnd=False, pbatch=(variant in ("param", "both")))
         rec = lossrec.expand(st, seed)
+        rec["wrev"] = st["wform"] == "dict"
         loss, params, batch = build_sysloss(rec)
         return loss, params, batch, True
     if name == "mlp":
@@ -141,6 +145,8 @@ def run_case(sc):
                     tot, terms = loss.evaluate(params, batch)
                 elif c["m"] == "jit":
                     tot, terms = jax.jit(lambda p, b: loss.evaluate(p, b))(params, batch)
+                elif c["m"] == "jitarg":       # the loss itself is an argument of the compiled function (what jinns.solve does)
+                    tot, terms = jax.jit(lambda l, p, b: l.evaluate(p, b))(loss, params, batch)
                 else:
                     (tot, terms), _g = jax.value_and_grad(lambda p: loss.evaluate(p, batch), has_aux=True)(params)
                 after = [I(fingerprint(loss)), I(fingerprint(params)), I(fingerprint(batch)), I(deep_user_dicts(params, batch))]
